@@ -1,7 +1,7 @@
 import os
 from . import core, apicheck
 
-RULE = ("all strings of length <= L over the 14-class alphabet of C10 (L = 4 quick, 5 thorough) plus seeded random long strings "
+RULE = ("all strings of length <= L over the 14-class alphabet of C10 (L = 4 quick, 6 thorough) plus every ASCII byte alone, between letters and before a quote / apostrophe / line feed, plus seeded random long strings "
         "with runs of quotes; for every string every builder style of toml_write (keys: unquoted, literal, basic_pretty, basic, "
         "default; values: literal, ml_literal, basic_pretty, ml_basic_pretty, basic, ml_basic, default), ToTomlKey/ToTomlValue for "
         "str, toml_edit::Key/Value Display and toml::Value Display; TLC decodes every offered token with TomlLex in the "
@@ -24,11 +24,27 @@ def run(ctx):
                 refused += 1
         if len(ctx.samples) < 6 and len(e["s"]) == 2 and (toks % 53 == 0):
             ctx.sample({"s": core.uncps(e["s"]), "tokens": [[q["pos"], q["style"], core.uncps(q["token"]) if q["offered"] else None] for q in e["q"]]})
+    describe = lambda m: repr(core.uncps(m["detail"].get("s", []))) + " " + str(m["detail"].get("style"))
+    apicheck.judge(ctx, evp, ["quote-"], describe)
+    os.remove(evp)
+    if not ctx.quick:
+        # length 6 (what the property asks for): 7.5 M strings, one slice per first symbol so that it fits on disk
+        L = 6
+        for first in range(14):
+            ctx.harness(h, ["quote-events", "--maxlen", L, "--first", first, "--random", 0, "--seed", ctx.seed, "--out", evp])
+            for e in core.iter_ndjson(evp):
+                for q in e["q"]:
+                    if q["offered"]:
+                        toks += 1
+                    else:
+                        refused += 1
+            apicheck.judge(ctx, evp, ["quote-"], describe)
+            os.remove(evp)
+            core.log("length-6 slice %d/14 done" % (first + 1))
     ctx.nontrivial = toks
     ctx.extra["offered_tokens"] = toks
     ctx.extra["refused_styles"] = refused
     ctx.extra["max_exhaustive_length"] = L
-    apicheck.judge(ctx, evp, ["quote-"], lambda m: repr(core.uncps(m["detail"].get("s", []))) + " " + str(m["detail"].get("style")))
     ctx.evaluations = toks
     return ctx.finish("model_checking", RULE, exhaustive=True)
 
